@@ -43,8 +43,17 @@ class ClassLocks(object):
         for fi in methods.values():
             g = cfg_of(fi)
             for n in g.live_nodes():
+                deferred = set()      # calls written inside a lambda are not made here: the method is handed over as a value
+                for e in node_exprs(n):
+                    for lam in [x for x in ast.walk(e) if isinstance(x, ast.Lambda)]:
+                        for c in [x for x in ast.walk(lam.body) if isinstance(x, ast.Call)]:
+                            deferred.add(id(c))
+                            if isinstance(c.func, ast.Attribute) and dump(c.func.value) == "self" and c.func.attr in methods:
+                                targets.add(c.func.attr)
                 for c in node_calls(n):
                     f = c.func
+                    if id(c) in deferred:
+                        continue
                     if isinstance(f, ast.Attribute) and dump(f.value) == "self" and f.attr in methods:
                         calls.setdefault(f.attr, []).append((fi, n))
                     for a in list(c.args) + [k.value for k in c.keywords]:
